@@ -177,13 +177,13 @@ def gen_shapes(tier, seed):
     if tier == "quick":
         shapes = plain + rich[:150]
     else:
-        shapes = plain + rich
-        for _ in range(60):
+        shapes = plain + rich[:260]
+        for _ in range(40):
             shapes.append(dict(n=4, methods=rng.sample([("K", i) for i in range(4)] + [("obj",)], 4), arg=0))
     for sh in shapes:
         sh["split"] = tier == "quick"
         sh["equal_prio"] = tier == "quick"
-    return shapes, total, tier == "quick"
+    return shapes, total, True
 
 
 def explore_shape(shape, tier="quick", seed=0, budget_s=120, validate=0):
@@ -243,7 +243,7 @@ def main(tier, seed):
     t0 = time.time()
     runner.assert_real_code()
     shapes, total, sampled = gen_shapes(tier, seed)
-    kw = dict(tier=tier, seed=seed, budget_s=60 if tier == "quick" else 300, validate=0)
+    kw = dict(tier=tier, seed=seed, budget_s=60 if tier == "quick" else 45, validate=0)
     results = runner.pmap("props.c06", "explore_shape", shapes, kw, chunksize=1)
     return runner.finish(
         PID, tier, seed, t0, results,
